@@ -159,6 +159,13 @@ theorem C06_slots_consumed (P : Prog) (d : Nat) (h : H) (st : St) (hs : SlotsEmp
 theorem C06_on_start_first (P : Prog) : (start P).st.trace.getLast? = some (.enTop .start) :=
   start_first P
 
+/-- `on_stop` is entered before anything else the shutdown records, and the agent is not running afterwards (so, by
+the next theorem, nothing at all runs after it). -/
+theorem C06_on_stop_last (a : Agent) (st : St) :
+    (shutdown a st).phase ≠ .running ∧
+    ∃ new, (shutdown a st).st.trace = new ++ (.enTop .stop :: st.trace) :=
+  shutdown_last a st
+
 /-- Once `on_stop` has run (phase `stopped`/`failed` reached through `shutdown`) the agent executes nothing more: every
 further request leaves the agent untouched. -/
 theorem C06_nothing_after_stop (a : Agent) (hp : a.phase ≠ .running) (line : String) :
@@ -182,6 +189,53 @@ example : (run (trigD demoProg 8) (.fby (setH 0 5) (.getLog 1)) St.init).2 = .ok
 example : renderTrace (run (trigD { demoProg with onEvent := [.seqNil, .fail, .seqNil] } 8)
       (.fby (setH 0 5) (.getLog 1)) St.init).1.trace
     = "ws0=5 <E0(5) >E0 <S0(0,5) ws1=6 <E1(6)" := by decide
+
+/-- A cyclic lifecycle: v0's `on_set` sets v0 again. -/
+def cyclicProg : Prog := { demoProg with onSet := [.set 0 1, .seqNil, .seqNil] }
+
+/-- The harness bracket: entry mark, body, exit mark (the exit only when the body succeeded). -/
+theorem C06_eval_bracket (trig : Trig) (en ex : Ev) (body : H) (st : St) :
+    eval trig (bracket en body ex) st = seqThen (eval trig body (st.log en)) (fun s => (s.log ex, .ok)) := by
+  simp only [bracket, eval, seqThen, seqNext]
+
+/-- Reference-level form of `C06_cyclic_reaches_any_bound`. -/
+theorem C06_cyclic_eval : ∀ (d : Nat) (st : St) (n : Int) (v : VLane), st.vals[0]? = some v →
+    (eval (refD cyclicProg d) (.set 0 n) st).2 = .err .depth := by
+  intro d
+  induction d with
+  | zero =>
+    intro st n v hv
+    have hlt := getElem?_lt _ _ _ hv
+    simp [eval, refD, consequence, St.setV, hv, St.addDirty, vid, nv, List.getElem?_set_self hlt]
+  | succ d ih =>
+    intro st n v hv
+    have hlt := getElem?_lt _ _ _ hv
+    have h := C06_prev_is_true_previous cyclicProg d 0 n st v (by decide) hv
+    rw [C06_run_eq_reference] at h
+    rw [h]
+    have hx : ∀ (s : St) (w : VLane), s.vals[0]? = some w →
+        (eval (refD cyclicProg d) (bracket (.enSet 0 (some v.content) n) (.set 0 1) (.exSet 0)) s).2 = .err .depth := by
+      intro s w hw
+      have := ih (s.log (.enSet 0 (some v.content) n)) 1 w (by simpa [St.log] using hw)
+      rw [C06_eval_bracket]
+      generalize eval (refD cyclicProg d) (.set 0 1) (s.log (.enSet 0 (some v.content) n)) = r at this ⊢
+      obtain ⟨s', o⟩ := r
+      simp only at this
+      subst this
+      rfl
+    have hE : getH cyclicProg.onEvent 0 = .seqNil := rfl
+    have hS : getH cyclicProg.onSet 0 = .set 0 1 := rfl
+    rw [hE, hS]
+    simp only [eval]
+    rw [C06_eval_bracket]
+    simp only [eval, seqThen]
+    exact hx _ { content := n, previous := none } (by simp [St.addDirty, St.log, List.getElem?_set_self hlt])
+
+/-- For a cyclic lifecycle the recursion bound is reached whatever it is: the only place where the model and the
+reference stop short is where the real `run_handler` recursion would not terminate (it has no cycle detection). -/
+theorem C06_cyclic_reaches_any_bound (d : Nat) (st : St) (n : Int) (v : VLane) (hv : st.vals[0]? = some v) :
+    (run (trigD cyclicProg d) (.set 0 n) st).2 = .err .depth := by
+  rw [C06_run_eq_reference]; exact C06_cyclic_eval d st n v hv
 
 /-- A cyclic lifecycle (v0's `on_set` sets v0) is where — and the only way — the bound is reached. -/
 example : (run (trigD { demoProg with onSet := [.set 0 1, .seqNil, .seqNil] } 2) (.set 0 5) St.init).2
